@@ -3,9 +3,9 @@ ID = "C02"
 LEVEL = "proof"
 TAGS = ("C02",)
 CONTRACT_MODULES = ALL_CONTRACTS
-FUNCTIONS = [S + "processLinearMoves", S + "isAnyPointExcluded", S + "isPointExcluded"] + HANDLER_FUNCS
+FUNCTIONS = [S + "processLinearMoves", S + "isAnyPointExcluded", S + "isPointExcluded", S + "processExtendedGcode"] + HANDLER_FUNCS
 ASSUMPTIONS = ["A1", "A2", "A3", "A4", "INDUCTION"]
-EXTRA_ASSUMPTIONS = ["configured extended codes outside an episode: processExtendedGcode returns None (clause of C06)"]
+EXTRA_ASSUMPTIONS = ["configured extended codes: processExtendedGcode returns None with an empty write set outside an episode (clause C02.passes-outside-episodes)"]
 EXPLANATION = ("Invariant J (no episode open, nothing deferred, no recovery owed) is preserved by every handler when no destination "
                "is excluded, and under J the result is None or the one-element list holding the original command -- for both values "
                "of g90InfluencesExtruder (symbolic) and arbitrary region lists. " + STREAM_NOTE)
